@@ -63,6 +63,8 @@ def b_isinstance(eng, st, args, kwargs, node):
 
 
 def isinstance_term(eng, st, v, c):
+    if isinstance(c, Fn) and c.name in ("type", "object"):
+        c = Cls(c.name)
     if isinstance(c, Tup):
         return z3.Or(*[isinstance_term(eng, st, v, x) for x in c.items])
     m = eng.method_models.get("__isinstance__")
@@ -227,9 +229,11 @@ def b_list(eng, st, args, kwargs, node):
     (v,) = args
     if isinstance(v, Tup):
         return [(s1, s1.alloc(ListObj(v.items)))]
-    if isinstance(v, Opaque):
-        return [(st, Opaque("list()"))]
-    raise Unsupported(f"list({v})")
+    if isinstance(v, Ref) and isinstance(st.get(v), ListObj):
+        o = st.get(v)
+        return [(s1, s1.alloc(ListObj(o.items, o.lower)))]
+    # a list built from something we do not track element-wise: an opaque fresh list
+    return [(st, Opaque("list()"))]
 
 
 def b_print(eng, st, args, kwargs, node):
